@@ -12,6 +12,7 @@ CONSTANTS
     MaxQ = 2
     InsertFirst = FALSE
     WithHold = FALSE
+    EmptyOn = 2
     Hist = FALSE
 INVARIANT Inv
 CHECK_DEADLOCK FALSE
